@@ -726,3 +726,22 @@ Proof.
   intro H. unfold energy_cost_agg_q. rewrite H. simpl.
   eexists. split; [reflexivity|]. unfold Analysis_energy_cost. apply Qdot_terms.
 Qed.
+
+(* ------------------------------------------------------------------ which tariff prices a simulation *)
+Lemma pricing_precedence signal explicit start period V cols :
+  (forall TS, explicit = Some TS ->
+     energy_cost_sim signal explicit start period V cols = energy_cost_q TS start period V cols /\
+     demand_charge_sim signal explicit start V cols = demand_charge TS start V cols) /\
+  (forall TS, explicit = None -> signal = Some TS ->
+     energy_cost_sim signal explicit start period V cols = energy_cost_q TS start period V cols /\
+     demand_charge_sim signal explicit start V cols = demand_charge TS start V cols) /\
+  (explicit = None -> signal = None ->
+     energy_cost_sim signal explicit start period V cols = Err "ValueError:nopricing" /\
+     demand_charge_sim signal explicit start V cols = Err "ValueError:nopricing").
+Proof.
+  unfold energy_cost_sim, demand_charge_sim, pricing_tariff, energy_cost_q, demand_charge.
+  split; [|split].
+  - intros TS ->. split; reflexivity.
+  - intros TS -> ->. split; reflexivity.
+  - intros -> ->. split; reflexivity.
+Qed.
